@@ -334,6 +334,13 @@ def _judge_scatter(ctx, rec):
     if problem is not None and kde == "multivariate" and pos is not None:
         finding = _two_positions_explains(x, y, p["xscale"], p["yscale"], pos[0], pos[1],
                                           p["kde_kwargs"], got)
+    elif problem is not None and kde == "multivariate" and p["xscale"] == p["yscale"] == "linear":
+        pred = K.predict_unsigned_wrap_defect(x, y, p["kde_kwargs"])
+        with np.errstate(all="ignore"):
+            if pred is not None and np.shape(got) == pred.shape and \
+                    np.allclose(np.asarray(got, dtype=np.float64), pred, rtol=1e-6, atol=0,
+                                equal_nan=True):
+                finding = K.M_UNSIGNED_WRAP
     ctx.check("kde_scatter.reference", problem is None,
               lambda: _wit({"params": _short(p), "n_selected": int(sel.sum()), "x_selected": x,
                             "y_selected": y, "got": got, "reference": want}),
@@ -907,7 +914,9 @@ def run_rand(ctx):
         feats, cols, shapes = G.gen_columns(rng, n)
         recipe = G.gen_recipe(rng, feats, cols, n)
         flow = float(rng.choice([0.04, 0.16, 0.32])) if rng.random() < 0.7 else None
-        fmt = "hdf5" if rng.random() < 0.12 else "dict"
+        # (.rtdc files store the fluorescence maxima as unsigned integers)
+        fmt = "hdf5" if rng.random() < (0.5 if feats[:2] == ["fl1_max", "fl2_max"] else 0.12) \
+            else "dict"
         _S.case_info = {"case": idx, "n": n, "features": feats, "shapes": shapes, "format": fmt,
                         "filter": {k: v for k, v in recipe.items() if k != "manual"}}
         env = None
